@@ -134,6 +134,7 @@ pub fn add_grids(p: &mut Plan, q: bool, boundary_words: bool) {
         for backend in backends_for(class) {
             let mut places = vec![Place::EndFlush, Place::StartFlush];
             places.extend(aligns.iter().map(|&a| Place::Mid(a)));
+            places.extend([0usize, 1, 4, 7].iter().map(|&a| Place::Hostile(a)));
             for place in places {
                 for filler in fillers(class) {
                     tasks.push(Box::new(move |ck: &mut Checker| {
@@ -162,7 +163,7 @@ pub fn add_grids(p: &mut Plan, q: bool, boundary_words: bool) {
         }
     }
     p.phases.push(Phase {
-        label: format!("S3: scanner grid, 5 backends × 3 classes × L≤{} × position × 256 values × 2 fillers × {} placements", lmax, aligns.len() + 2),
+        label: format!("S3: scanner grid, 5 backends × 3 classes × L≤{} × position × 256 values × 2 fillers × {} placements (end-flush, start-flush, {} mid-buffer alignments, 4 with in-class bytes around the buffer)", lmax, aligns.len() + 6, aligns.len()),
         backend: Backend::Native,
         tasks,
     });
@@ -283,7 +284,8 @@ pub fn replay(text: &str) -> i32 {
     let place = match json::get_num(text, "place").unwrap_or(0) {
         0 => Place::EndFlush,
         1 => Place::StartFlush,
-        _ => Place::Mid(json::get_num(text, "place_off").unwrap_or(0) as usize),
+        2 => Place::Mid(json::get_num(text, "place_off").unwrap_or(0) as usize),
+        _ => Place::Hostile(json::get_num(text, "place_off").unwrap_or(0) as usize),
     };
     let data = json::unhex(&json::get_str(text, "input_hex").unwrap_or_default());
     let mut arena = crate::arena::Arena::new(data.len() + 8192);
